@@ -149,6 +149,8 @@ def generate():
     o.append("/-- (ovmb type name, kind: 0 = bit-packed bool, 1 = fixed-size raw bytes, 2 = u32-length string, element size) -/")
     kinds = {"b": 0, "f": 1, "s": 2}
     o.append("def codecTable : List (String × Nat × Nat) := " + lean_list('("%s", %d, %d)' % (n, kinds[k], s) for n, k, s in KNOWN))
+    o.append("/-- the same table with the names as ASCII code lists (kernel-reducible without String internals) -/")
+    o.append("def codecTableB : List (List Nat × Nat × Nat) := " + lean_list('(%s, %d, %d)' % (lean_list(n.encode()), kinds[k], s) for n, k, s in KNOWN))
     o.append("/-- names extracted from PropertyCodecs.cc, in registration order -/")
     o.append("def registeredCodecs : List String := " + lean_list('"%s"' % n for n in names))
     o.append("")
